@@ -94,7 +94,7 @@ def write_if_changed(path, content):
 # not an executable model; no correspondence could stand in for it.
 FALLBACK_TARGETS = {
     'AbsPosEnums.v', 'AbsPosGen.v', 'BlockGen.v', 'CacheGen.v', 'CompactLengthGen.v', 'FiltersGen.v', 'FlexGen.v',
-    'GridTracksGen.v', 'LeafGen.v', 'MathGen.v', 'PlacementGen.v', 'RoundingGen.v', 'TreeMethodsGen.v',
+    'GridTracksGen.v', 'LeafGen.v', 'MathGen.v', 'PlacementGen.v', 'RootGen.v', 'RoundingGen.v', 'TreeMethodsGen.v',
 }
 SNAPSHOTS = os.path.join(ROOT, 'translator', 'snapshots')
 
